@@ -564,6 +564,15 @@ func explore(ld *loaded, h HarnessCfg, tier string, workers int, known []KnownFi
 	for k, v := range h.Params[tier] {
 		params[k] = v
 	}
+	if ov := os.Getenv("VP_PARAMS"); ov != "" {
+		for _, kv := range strings.Split(ov, ",") {
+			parts := strings.SplitN(kv, "=", 2)
+			if len(parts) == 2 {
+				n, _ := strconv.Atoi(parts[1])
+				params[parts[0]] = n
+			}
+		}
+	}
 	t0 := time.Now()
 	w.push(h.Func, nil)
 	res := &harnessResult{cfg: h, funcs: map[string]int{}}
